@@ -1331,13 +1331,19 @@ class ListBox(Widget, WidgetContainerMixin):
 
         return key
 
-    def _keypress_max_left(self, size: tuple[int, int]) -> None:
+    def _keypress_max_left(self, size: tuple[int, int]) -> bool | None:
+        if not hasattr(self._body, "positions"):
+            return True  # optional list walker method is missing: keypress not handled
         self.focus_position = next(iter(self.body.positions()))
         self.set_focus_valign(VAlign.TOP)
+        return None
 
-    def _keypress_max_right(self, size: tuple[int, int]) -> None:
+    def _keypress_max_right(self, size: tuple[int, int]) -> bool | None:
+        if not hasattr(self._body, "positions"):
+            return True  # optional list walker method is missing: keypress not handled
         self.focus_position = next(iter(self.body.positions(reverse=True)))
         self.set_focus_valign(VAlign.BOTTOM)
+        return None
 
     def _keypress_up(self, size: tuple[int, int]) -> bool | None:
         (maxcol, maxrow) = size
